@@ -1,11 +1,14 @@
 """C14, S(k) operator norm: construction of certificate CANDIDATES (untrusted; the verified Lean checkers `checkSkUpperPPT`,
-`checkSkUpperRed`, `checkSkLower` of lean/Toq/Model/EntangleSk.lean are the judges, theorems `C14.checkSkUpperPPT_sound`,
-`checkSkUpperRed_sound`, `checkSkLower_sound`).
+`checkSkUpperRed`, `checkSkLower` of lean/Toq/Model/EntangleSk.lean and `checkSkUpperDps` of lean/Toq/Model/EntangleSkDps.lean are the judges, theorems
+`C14.checkSkUpperPPT_sound`, `checkSkUpperRed_sound`, `checkSkUpperDps_sound`, `checkSkLower_sound`).
 
 * upper side: the dual of the relaxation  max tr(X rho), rho >= 0, tr rho <= 1, Phi(rho) >= 0  is  min lam, Y >= 0, lam*1 - X - Phi(Y) >= 0
   (Phi = partial transpose on B for k = 1, Phi(Y) = k (tr_B Y) (x) 1 - Y for any k; both maps are self-adjoint for the trace pairing).  It is
   solved independently of toqito with cvxpy's own atoms, Y is rounded to dyadics, shifted to be strictly positive, lam is raised until the
   slack is strictly positive, Cholesky factors of both are the PSD witnesses.
+* upper side, two-copy level (k = 1; needed from 2x4 / 3x3 on, where the PPT relaxation is no longer exact): the dual of the Bose-symmetric two-copy extension
+  program with one partial transpose is  min lam, Y >= 0 on A B1 B2, Pi (lam*1 - X (x) 1 - Y^{T_B2}) Pi >= 0, Pi = 1_A (x) (1 + SWAP)/2.  Same repair; the slack sent
+  to the checker is Pi (...) Pi + t (1 - Pi), strictly positive on the antisymmetric part as well.
 * lower side: a float vector of Schmidt rank <= k (alternating optimisation), its SVD terms rounded to dyadics, second factors made exactly
   orthogonal by division-free Gram-Schmidt, first factors refitted."""
 from __future__ import annotations
@@ -90,6 +93,92 @@ def upper_certificate(X, dA, dB, k, ppt, bits=40):
             "lam": [lam.numerator, lam.denominator], "LS": LS.json()}
     if not ppt:
         args["k"] = k
+    return args, float(lam)
+
+
+# ------------------------------------------------------------------------------------------------ upper certificate, two-copy level (k = 1)
+
+def swap_copies_perm(dA, dB):
+    """the index permutation (a, b, c) -> (a, c, b) of the flat index (a*dB + b)*dB + c"""
+    idx = np.arange(dA * dB * dB).reshape(dA, dB, dB)
+    return idx.transpose(0, 2, 1).reshape(-1)
+
+
+def sym_isometry(dA, dB):
+    """real isometry onto C^dA (x) Sym^2(C^dB) inside C^dA (x) C^dB (x) C^dB"""
+    cols = []
+    for a in range(dA):
+        for b in range(dB):
+            for c in range(b, dB):
+                v = np.zeros(dA * dB * dB)
+                if b == c:
+                    v[(a * dB + b) * dB + c] = 1.0
+                else:
+                    v[(a * dB + b) * dB + c] = v[(a * dB + c) * dB + b] = 1.0 / np.sqrt(2.0)
+                cols.append(v)
+    return np.array(cols).T
+
+
+def sym_sandwich(M, dA, dB):
+    """Pi M Pi for Pi = 1_A (x) (1 + SWAP)/2"""
+    s = swap_copies_perm(dA, dB)
+    return (M + M[s, :] + M[:, s] + M[np.ix_(s, s)]) / 4
+
+
+def dps_dual_solve(X, dA, dB):
+    """untrusted: approximate optimal Y of  min lam, Y >= 0 on A B1 B2, Pi (lam - X (x) 1 - Y^{T_B2}) Pi >= 0 on the symmetric subspace; None when the solver fails"""
+    import cvxpy as cp
+
+    P, N3 = dA * dB, dA * dB * dB
+    V = sym_isometry(dA, dB)
+    XX = np.kron(X, np.eye(dB))
+    Y = cp.Variable((N3, N3), hermitian=True)
+    lam = cp.Variable()
+    M = lam * np.eye(N3) - XX - cp.partial_transpose(Y, [P, dB], 1)
+    S = V.T @ M @ V
+    prob = cp.Problem(cp.Minimize(lam), [Y >> 0, (S + S.H) / 2 >> 0])
+    for solver, kw in (("CLARABEL", {}), ("SCS", {"eps": 1e-8, "max_iters": 20000})):
+        try:
+            with warnings.catch_warnings():
+                warnings.simplefilter("ignore")
+                prob.solve(solver=solver, **kw)
+        except Exception:  # noqa: BLE001
+            continue
+        if prob.status in ("optimal", "optimal_inaccurate") and Y.value is not None:
+            return np.asarray(Y.value, dtype=complex), float(lam.value)
+    return None
+
+
+def upper_certificate_dps(X, dA, dB, bits=40):
+    """(json args for c14_sk_upper_dps, float lam) or None.  The checker forms the slack Pi (lam - X (x) 1 - Y^{T_B2} - t) Pi + t exactly from X, Y, lam, t; only the
+    two Cholesky-type witnesses are approximate."""
+    P, N3 = dA * dB, dA * dB * dB
+    sol = dps_dual_solve(X, dA, dB)
+    if sol is None:
+        return None
+    Yf, _ = sol
+    Yf = (Yf + Yf.conj().T) / 2
+    scale = max(1.0, float(np.linalg.norm(X, 2)))
+    w = float(np.min(np.linalg.eigvalsh(Yf)))
+    Yf = Yf + (max(0.0, -w) + scale * 2.0 ** -24) * np.eye(N3)
+    Yd = DM.from_float(Yf, bits).herm_part()
+    Yx = Yd.to_float()
+    LY = chol_factor(Yx)
+    if LY is None:
+        return None
+    V = sym_isometry(dA, dB)
+    M = np.kron(X, np.eye(dB)) + pt_b(Yx, P, dB)
+    M = (M + M.conj().T) / 2
+    Ms = V.T @ M @ V
+    lam_f = float(np.max(np.linalg.eigvalsh((Ms + Ms.conj().T) / 2))) + scale * 2.0 ** -20
+    lam = Fraction(int(np.ceil(lam_f * (1 << bits))), 1 << bits)
+    t = Fraction(int(np.ceil(scale)))
+    S = sym_sandwich((float(lam) - float(t)) * np.eye(N3) - M, dA, dB) + float(t) * np.eye(N3)
+    LS = chol_factor(S)
+    if LS is None:
+        return None
+    args = {"dA": dA, "dB": dB, "X": DM.exact_float(X).json(), "Y": Yd.json(), "LY": LY.json(),
+            "lam": [lam.numerator, lam.denominator], "t": [t.numerator, t.denominator], "LS": LS.json()}
     return args, float(lam)
 
 
